@@ -414,7 +414,7 @@ Proof.
   - rewrite tokens_of_obj. cbn [app]. rewrite <- !app_assoc. reflexivity.
 Qed.
 
-Lemma parse_elems_loop (P : json -> Prop) :
+Lemma parse_elems_loop :
   forall l, Forall (fun v => forall f rest, length (tokens_of v) <= f -> parse f PValue (tokens_of v ++ rest) = Some (v, rest)) l ->
   forall f acc rest, tsize l + 1 <= f ->
   parse f (PElems acc) (elems_tokens l ++ [TRBrack] ++ rest) = Some (JArr (rev acc ++ l), rest).
@@ -462,7 +462,7 @@ Proof.
     rewrite tokens_of_arr in Hf. cbn [length] in Hf. rewrite !app_length in Hf. cbn [length] in Hf.
     fold (elems_tokens l) in Hf.
     rewrite IHw by lia.
-    rewrite (parse_elems_loop (fun _ => True)); [reflexivity|exact IHl|unfold tsize; lia].
+    rewrite parse_elems_loop; [reflexivity|exact IHl|unfold tsize; lia].
   - destruct m as [|[k w] m]; [reflexivity|].
     inversion IH as [|? ? IHw IHm]; subst. cbn [snd] in IHw.
     rewrite tokens_of_obj in Hf. cbn [length] in Hf. rewrite !app_length in Hf. cbn [length] in Hf.
